@@ -317,6 +317,9 @@ fn trees(depth: usize) -> Vec<RE> {
     levels.into_iter().flatten().collect()
 }
 
+/// separators put between all tokens of a rendering
+const RELAYOUT: [&str; 7] = ["\n", "\r", "\r\n", " // c\n", " // c\r", " //\r\n", "\t// \"c\r  "];
+
 fn tree_leg(g: &Grammar, depth: usize, max_subset_nodes: usize) -> Acc {
     let ts = trees(depth);
     ts.par_chunks(32)
@@ -333,6 +336,7 @@ fn tree_leg(g: &Grammar, depth: usize, max_subset_nodes: usize) -> Acc {
                     m
                 };
                 acc.count("trees", 1);
+                let full_mask = if n == 0 { 0 } else { (1u64 << n.min(63)) - 1 };
                 for mask in masks {
                     let text = match t.unparse_with_extra(mask) {
                         Some(s) => s,
@@ -348,6 +352,32 @@ fn tree_leg(g: &Grammar, depth: usize, max_subset_nodes: usize) -> Acc {
                     }
                     acc.count("renderings", 1);
                     record(&mut acc, "C07", &text, "Expr::parse", compare_expr(g, &text), &C07_KINDS);
+                    // the same token sequence under other layouts (line breaks of every kind and
+                    // comments between all tokens): the structure is the table's, whatever the layout
+                    if mask == 0 || mask == full_mask {
+                        if let Ok(toks) = crate::spec::lex::lex_all(&text) {
+                            for sep in RELAYOUT {
+                                let mut relaid = String::new();
+                                for (i, tk) in toks.iter().enumerate() {
+                                    if i > 0 {
+                                        relaid.push_str(sep);
+                                    }
+                                    relaid.push_str(&text[tk.start..tk.end]);
+                                }
+                                relaid.push_str(sep);
+                                match reference_parse_expr(g, &relaid) {
+                                    RefParse::Accept(rt) if rt == *t => {}
+                                    other => {
+                                        acc.machinery(format!("reference is layout-sensitive on {relaid:?}: {other:?}"));
+                                        continue;
+                                    }
+                                }
+                                acc.count("renderings", 1);
+                                acc.count("relaid_renderings", 1);
+                                record(&mut acc, "C07", &relaid, "Expr::parse", compare_expr(g, &relaid), &C07_KINDS);
+                            }
+                        }
+                    }
                 }
                 acc.sample("tree", 2, || json!({"minimal": t.unparse(), "full": t.unparse_full()}));
             }
